@@ -324,6 +324,7 @@ def _builtin_histories(self, tier, seed):
         "decay_general_shifted_irf": ([DecayMegacomplex], {"megacomplex": {"m": {"type": "decay", "k_matrix": ["km"]}}, "k_matrix": {"km": {"matrix": {("s2", "s1"): "k.1", ("s2", "s2"): "k.2"}}}, "initial_concentration": {"j": {"compartments": ["s1", "s2"], "parameters": ["j.1", "j.0"]}}, "irf": shifted, "dataset": {"d": {"megacomplex": ["m"], "irf": "irf1", "initial_concentration": "j"}}}),
         "oscillation_and_artifact_irf": ([DampedOscillationMegacomplex, CoherentArtifactMegacomplex], {"megacomplex": {"o": {"type": "damped-oscillation", "labels": ["o1"], "frequencies": ["osc.f"], "rates": ["k.1"]}, "a": {"type": "coherent-artifact", "order": 2}}, "irf": irf, "dataset": {"d": {"megacomplex": ["o", "a"], "irf": "irf1"}}}),
     }
+    specs["decay_two_k_matrices"] = ([DecayMegacomplex], {"megacomplex": {"m": {"type": "decay", "k_matrix": ["km1", "km2"]}}, "k_matrix": {"km1": {"matrix": {("s2", "s1"): "k.1"}}, "km2": {"matrix": {("s2", "s2"): "k.2"}}}, "initial_concentration": {"j": {"compartments": ["s1", "s2"], "parameters": ["j.1", "j.0"]}}, "dataset": {"d": {"megacomplex": ["m"], "initial_concentration": "j"}}})
     specs["decay_parallel_expression"] = ([DecayParallelMegacomplex], {"megacomplex": {"m": {"type": "decay-parallel", "compartments": ["s1", "s2"], "rates": ["k.1", "kx.2"]}}, "irf": irf, "dataset": {"d": {"megacomplex": ["m"], "irf": "irf1"}}})
     pars = {"kx": [["2", 0.15, {"expr": "$k.1 * 0.25"}]], "k": [0.6, 0.15], "irf": [["c", 0.4], ["w", 0.3], ["s0", 0.0], ["s1", 0.05], ["s2", -0.05]], "j": [["1", 1.0, {"vary": False}], ["0", 0.0, {"vary": False}]], "osc": [["f", 3.0]]}
     out = []
@@ -343,6 +344,7 @@ def _builtin_histories(self, tier, seed):
                 x1 = x0 * 1.1 + 0.01
                 xbad = x0.copy()
                 xbad[labels.index("k.1")] = -1e4  # non-finite concentrations: the evaluation raises
+                f1 = np.array(opt.objective_function(x1.copy()), copy=True)
                 f0 = np.array(opt.objective_function(x0.copy()), copy=True)
                 bad = []
                 for hist_name, hist in (("repeat", []), ("return", [x1]), ("raise_between", [xbad]), ("raise_then_other", [xbad, x1])):
@@ -364,6 +366,10 @@ def _builtin_histories(self, tier, seed):
                 fresh = np.array(opt2.objective_function(x0.copy()), copy=True)
                 if not np.array_equal(fresh, f0):
                     bad.append({"history": "fresh_optimizer"})
+                # ... and at a point that is not the one the first optimizer evaluated last
+                fresh1 = np.array(opt2.objective_function(x1.copy()), copy=True)
+                if not np.array_equal(fresh1, f1):
+                    bad.append({"history": "fresh_optimizer_at_another_point", "penalty_first_optimizer": f1[:4].tolist(), "penalty_fresh_optimizer": fresh1[:4].tolist()})
                 # a second optimizer on *other* parameter values, created and evaluated while the first is alive
                 caller_before = [(q.label, float(q.value), q.expression, q.vary) for q in parameters.all()]
                 other = Parameters.from_dict({**pars, "k": [2.0, 0.9]})
